@@ -107,6 +107,7 @@ pub struct Shared {
     exhaustive_all: AtomicBool,
     any_generated: AtomicBool,
     watch: Mutex<HashMap<std::thread::ThreadId, (Instant, Value)>>,
+    lazy: Mutex<HashMap<std::thread::ThreadId, (Instant, std::sync::Arc<dyn Fn() -> Value + Send + Sync>)>>,
     pub shards_override: Option<usize>,
     pub scale: f64,
 }
@@ -132,6 +133,7 @@ impl Shared {
             exhaustive_all: AtomicBool::new(true),
             any_generated: AtomicBool::new(false),
             watch: Mutex::new(HashMap::new()),
+            lazy: Mutex::new(HashMap::new()),
             shards_override: None,
             scale,
         }
@@ -193,13 +195,37 @@ impl Shared {
         self.watch.lock().unwrap().remove(&id);
     }
     pub fn stalled(&self, limit: Duration) -> Option<Value> {
-        let w = self.watch.lock().unwrap();
-        for (_, (t, v)) in w.iter() {
+        {
+            let w = self.watch.lock().unwrap();
+            for (_, (t, v)) in w.iter() {
+                if t.elapsed() > limit {
+                    return Some(v.clone());
+                }
+            }
+        }
+        let l = self.lazy.lock().unwrap();
+        for (_, (t, f)) in l.iter() {
             if t.elapsed() > limit {
-                return Some(v.clone());
+                return Some(f());
             }
         }
         None
+    }
+    /// generic stall detection for every stream: remember (lazily serialisable) what runs
+    fn watch_lazy(&self, f: std::sync::Arc<dyn Fn() -> Value + Send + Sync>) {
+        if !Self::counting() {
+            return;
+        }
+        let id = std::thread::current().id();
+        self.lazy.lock().unwrap().insert(id, (Instant::now(), f));
+    }
+    fn unwatch_lazy(&self) {
+        let id = std::thread::current().id();
+        self.lazy.lock().unwrap().remove(&id);
+    }
+    /// only the totality properties have a bounded-time clause
+    fn stall_is_violation(&self) -> bool {
+        self.id == "C04" || self.id == "C05"
     }
     pub fn stopped(&self) -> bool {
         self.stop.load(Ordering::Relaxed)
@@ -272,14 +298,22 @@ const SEP: char = '\u{1}';
 
 impl<V> Stream<V>
 where
-    V: Serialize + DeserializeOwned + Debug + Clone + Send + 'static,
+    V: Serialize + DeserializeOwned + Debug + Clone + Send + Sync + 'static,
 {
-    fn checked(&self, sh: &Shared, v: &V) -> Check {
+    fn checked(&self, sh: &Shared, v: &V) -> Check
+    where
+        V: Sync,
+    {
+        let name = self.name;
+        let copy = v.clone();
+        sh.watch_lazy(std::sync::Arc::new(move || json!({"stream": name, "case": serde_json::to_value(&copy).unwrap_or(Value::Null)})));
         // a panic inside the harness/check itself (not guarded library code) is also a failure
-        match guard(|| (self.check)(sh, v)) {
+        let r = match guard(|| (self.check)(sh, v)) {
             Ok(r) => r,
             Err(p) => Err(Failure::new("panic", format!("panic escaped: {p}"))),
-        }
+        };
+        sh.unwatch_lazy();
+        r
     }
 
     fn run_gen(&self, sh: &Shared, mk: &(dyn Fn() -> BoxedStrategy<V> + Send + Sync)) {
@@ -413,7 +447,7 @@ fn strat_sample<V>() {}
 
 impl<V> AnyStream for Stream<V>
 where
-    V: Serialize + DeserializeOwned + Debug + Clone + Send + 'static,
+    V: Serialize + DeserializeOwned + Debug + Clone + Send + Sync + 'static,
 {
     fn name(&self) -> &'static str {
         self.name
@@ -617,6 +651,12 @@ pub fn run_property(prop: &Prop, tier: Tier, seed: u64, root: PathBuf, only_stre
 }
 
 fn handle_stall(sh: &Shared, v: &Value) -> i32 {
+    if !sh.stall_is_violation() {
+        let f = Failure::new("stall", "case did not return within 20 s");
+        let path = sh.write_replay(v["stream"].as_str().unwrap_or("unknown"), &v["case"], &f);
+        println!("INCONCLUSIVE property={} a case did not return within 20 s (bounded time is C04/C05's clause, not this property's): {path}", sh.id);
+        std::process::exit(2);
+    }
     // confirm in a fresh child process with a 60 s limit
     let f = Failure::new("stall", "case did not return within 20 s; re-running in isolation");
     let path = sh.write_replay(v["stream"].as_str().unwrap_or("unknown"), &v["case"], &f);
@@ -632,7 +672,19 @@ fn handle_stall(sh: &Shared, v: &Value) -> i32 {
     loop {
         match child.try_wait() {
             Ok(Some(_)) => {
-                println!("INCONCLUSIVE a case stalled >20 s in the run but returned in isolation: {path}");
+                // the case returned in isolation: judge it by the CPU time it needed there
+                // (robust against machine load; in-bounds inputs need milliseconds)
+                let cpu = unsafe {
+                    let mut ru: libc::rusage = std::mem::zeroed();
+                    libc::getrusage(libc::RUSAGE_CHILDREN, &mut ru);
+                    ru.ru_utime.tv_sec as f64 + ru.ru_stime.tv_sec as f64 + (ru.ru_utime.tv_usec + ru.ru_stime.tv_usec) as f64 / 1e6
+                };
+                if cpu > 10.0 {
+                    println!("VIOLATION property={} replay={}", sh.id, path);
+                    println!("  signature=slow: the case needs {cpu:.1} s of CPU time in an isolated process (inputs within the property's bounds normally need milliseconds); bounded-time clause");
+                    std::process::exit(1);
+                }
+                println!("INCONCLUSIVE a case stalled >20 s in the run but returned in isolation after {cpu:.1} s CPU: {path}");
                 std::process::exit(2);
             }
             Ok(None) => {
